@@ -10,3 +10,8 @@ import RodbusModel.Props.C09
 #print axioms Rodbus.C09.client_admit_iff
 #print axioms Rodbus.C09.cert_accepted_meaning
 #print axioms Rodbus.C09.no_certificate_refused
+#print axioms Rodbus.C09.extra_certificates_irrelevant
+#print axioms Rodbus.C09.role_is_end_entity_role
+#print axioms Rodbus.C09.self_signed_single_certificate
+#print axioms Rodbus.C09.empty_chain_refused
+#print axioms Rodbus.C09.roleless_end_entity_refused
